@@ -277,6 +277,9 @@ def generate(tier):
     for session in ("two-stems", "same-stem", "reevaluate-first"):
         for law, names in it.product(("ma", "power", "fcall"), ("plain", "underscore")):
             add(session=session, law=law, names=names, fdef=int(law == "fcall"))
+    for session in ("revised-in-place", "same-stem-one-digit"):
+        for law, names, hosu in it.product(("ma", "power", "fcall", "piecewise"), ("plain", "keyword"), (0, 1)):
+            add(session=session, law=law, names=names, hosu=hosu, fdef=int(law == "fcall"))
     seen, out = set(), []
     for c in cases:
         k = sha12(c)
@@ -391,9 +394,28 @@ def check(case):
             return bad if bad is not None else outcome(True, "as-described", nontrivial=nt)
         # two documents in one session: B differs from A in its law and stoichiometry
         cb = {**c, "law": "exp" if c["law"] != "exp" else "ma", "stoich": "two", "k2": "rule"}
+        if c["session"] in ("revised-in-place", "same-stem-one-digit"):
+            # the second document differs from the first in ONE digit (stoichiometry 1 -> 2): everything generated from
+            # it has the same length, and both are read within the same second
+            cb = {**c, "stoich": "two"}
         d2 = home / f"b_{tag}"
         d2.mkdir(exist_ok=True)
-        if c["session"] == "same-stem":
+        if c["session"] == "revised-in-place":
+            fa = fb = d1 / f"model_{tag}.xml"
+            write_document(c, fa)
+            try:
+                ma = sbml.read(fa)
+                write_document(cb, fb)
+                mb = sbml.read(fb)
+            except Exception as exc:  # noqa: BLE001
+                return outcome(False, "import-raised", symptom=f"import-raised:{type(exc).__name__}", nontrivial=nt, detail=f"{type(exc).__name__}: {str(exc)[:200]} | {txt}")
+            for which, m, cc in (("revised", mb, cb), ("first", ma, c)):
+                bad = compare(m, cc, txt + f" [{which} document]", nt)
+                if bad is not None:
+                    bad["symptom"] = "session-interference:" + str(bad["symptom"])
+                    return bad
+            return outcome(True, "as-described", nontrivial=nt)
+        if c["session"] in ("same-stem", "same-stem-one-digit"):
             fa, fb = d1 / f"same_{tag}.xml", d2 / f"same_{tag}.xml"
         else:
             fa, fb = d1 / f"first_{tag}.xml", d2 / f"second_{tag}.xml"
